@@ -121,13 +121,22 @@ def sh(cmd, cwd=None, timeout=1800, env=None, input=None):
     e = dict(os.environ)
     if env:
         e.update(env)
+    # own process group: on a timeout the whole tree goes (make's coqc / cargo's rustc children would otherwise
+    # live on as orphans and keep cores busy for hours)
+    p = subprocess.Popen(cmd, cwd=cwd, env=e, stdin=subprocess.PIPE if input is not None else None,
+                         stdout=subprocess.PIPE, stderr=subprocess.STDOUT, shell=isinstance(cmd, str),
+                         start_new_session=True)
     try:
-        p = subprocess.run(cmd, cwd=cwd, timeout=timeout, env=e, input=input, stdout=subprocess.PIPE,
-                           stderr=subprocess.STDOUT, shell=isinstance(cmd, str))
-        return p.returncode, p.stdout.decode("utf-8", "replace")
-    except subprocess.TimeoutExpired as ex:
-        out = ex.stdout.decode("utf-8", "replace") if ex.stdout else ""
-        return 124, out + "\n[timeout after %ss]" % timeout
+        out, _ = p.communicate(input=input, timeout=timeout)
+        return p.returncode, out.decode("utf-8", "replace")
+    except subprocess.TimeoutExpired:
+        import signal
+        try:
+            os.killpg(p.pid, signal.SIGKILL)
+        except ProcessLookupError:
+            pass
+        out, _ = p.communicate()
+        return 124, (out.decode("utf-8", "replace") if out else "") + "\n[timeout after %ss]" % timeout
 
 
 def write_if_changed(path, content):
